@@ -31,6 +31,7 @@ EXPLANATION = (
     "are mirror images over the discriminant byte."
     " The test separating 'undefined' from 'integer' in the optional-int constructor is evaluated for None, several ints, a bool and a non-builtin integer object; payload/segment buffers are created per call. C15.Z: no truthiness test on an int-typed value."
     ' C15.W: no raising guard in a message / OptionalInt constructor rejects a value inside the declared width of the field it is stored in (evaluated at the ends of the range and next to every compared constant). C15.K: memoisation keys cover the arguments.'
+    ' C15.H executes OptionalInt.__init__ abstractly for None and several integer objects: the fields it leaves behind are the encoding.'
 )
 LEVEL_TEXT = (
     "Static analysis, partial: structural round-trip argument for all 9 message classes (tables, offsets, element types, "
